@@ -211,9 +211,8 @@ def run(repo, chk):
         if not any(c == tf.cname(i) for i in range(len(at.ins))):
             chk.fail('C03.T2', c, m, STDLIB, at.base_line + ln)
     # pipeline that turns the text into lines
-    pl = at.pipeline
-    chk.expect('textwrap.dedent' in pl and 'filter(None' in pl and ".split(b'\\n')" in pl, 'C03.T1',
-               'stdlib_lines pipeline', 'text must be dedented, split per line and blank lines dropped', STDLIB)
+    chk.expect(at.shape_problem is None, 'C03.T1', 'stdlib_lines value',
+               at.shape_problem or 'a list of non-blank single-line bytes objects (evaluated from the module)', STDLIB)
 
     # ---- J4 terminal stubs ----------------------------------------------
     for stub in TERMINAL_STUBS:
@@ -281,7 +280,7 @@ def run(repo, chk):
                     and src(n.func) != 'asm.State':
                 writers.append((fname, src(n), n.lineno))
     for fname, text, line in writers:
-        chk.expect(fname in ('gen_block', 'gen_stmts') and text.startswith('asm.Mov('), 'C03.J5',
+        chk.expect(fname in gf.owners(('gen_block', 'gen_stmts')) and text.startswith('asm.Mov('), 'C03.J5',
                    f'{fname}::{text}', 'the runtime defeat word may only be written by Mov in the try/stop arm '
                    'and the exit arms of gen_stmts', GEN, line)
     chk.floor('writers of the defeat word', len(writers), 3)
